@@ -20,9 +20,9 @@ type writer struct {
 	lines []string
 }
 
-func (w *writer) next() int       { return len(w.lines) + 1 } // number of the line written next
-func (w *writer) add(s string)    { w.lines = append(w.lines, s) }
-func (w *writer) text() string    { return strings.Join(w.lines, "\n") + "\n" }
+func (w *writer) next() int          { return len(w.lines) + 1 } // number of the line written next
+func (w *writer) add(s string)       { w.lines = append(w.lines, s) }
+func (w *writer) text() string       { return strings.Join(w.lines, "\n") + "\n" }
 func (w *writer) addAll(ss []string) { w.lines = append(w.lines, ss...) }
 
 type ctx struct {
@@ -146,10 +146,6 @@ func (c *ctx) stmt(g Group) (lines []string, cond [2]int, isIf bool) {
 		lines = append(lines, indent(inner())...)
 		lines = append(lines, "}")
 	case "sync":
-		lock := []string{"this"}
-		for i := 1; i < h; i++ {
-			lock = append(lock, "")
-		}
 		if h == 1 && nh == 0 {
 			lines = []string{"synchronized (this) { " + c.act() + " }"}
 			return
@@ -166,7 +162,6 @@ func (c *ctx) stmt(g Group) (lines []string, cond [2]int, isIf bool) {
 				lines = append(lines, l)
 			}
 		}
-		_ = lock
 		lines = append(lines, indent(inner())...)
 		lines = append(lines, "}")
 	case "for":
@@ -247,7 +242,7 @@ func params(rnd *rand.Rand, n int, va bool) string {
 }
 
 // method renders one method (4-space member indentation) at the writer's current line
-func renderMethod(w *writer, rnd *rand.Rand, f File, m Method, idx int, abstractClass bool) MFacts {
+func renderMethod(w *writer, rnd *rand.Rand, f File, m Method, idx int) MFacts {
 	c := &ctx{rnd: rnd, iface: f.Kind == "interface"}
 	mf := MFacts{First: w.next(), Conds: [][2]int{}}
 	for a := 0; a < m.Ann; a++ {
@@ -442,7 +437,7 @@ func renderFile(rnd *rand.Rand, f File, pkg string) (string, []MFacts) {
 		} else if rnd.Intn(8) == 0 {
 			w.addAll([]string{"    /**", "     * if (described) { }", "     */"})
 		}
-		facts[j] = renderMethod(w, rnd, f, ms[j], j, abstractClass)
+		facts[j] = renderMethod(w, rnd, f, ms[j], j)
 		if n < len(order)-1 || rnd.Intn(2) == 0 {
 			w.add("")
 		}
